@@ -103,14 +103,14 @@ impl OutputFormat for IceDraw {
         }
 
         // font
-        if buf.get_font_dimensions() != Size::new(8, 16) {
+        // the font that is stored is the one the cells use: its size counts, not the size of whatever sits in slot 0
+        let Some(font) = buf.get_font(fonts.first().copied().unwrap_or(0)) else {
+            return Err(SavingError::NoFontFound.into());
+        };
+        if font.size != Size::new(8, 16) || font.length != 256 {
             return Err(SavingError::Only8x16FontsSupported.into());
         }
-        if let Some(font) = buf.get_font(fonts[0]) {
-            result.extend(font.convert_to_u8_data());
-        } else {
-            return Err(SavingError::NoFontFound.into());
-        }
+        result.extend(font.convert_to_u8_data());
 
         // palette
         result.extend(buf.palette.as_vec_63());
